@@ -139,5 +139,7 @@ func init() {
 		c05RegisterCert(c)
 		c05RegisterRw(c)
 		c05RegisterRs(c)
+		// the query functions canBeMadeAtomic relies on (MayOverlap, Equals, CharIn side conditions): leg Kq of C16 at a small size
+		c16QueryLeg(c, 150, 3000)
 	})
 }
